@@ -11,7 +11,7 @@ func VerifLeftover(rs RegistrationService, initFlow InitFlowSynchronization, inv
 	out := fmt.Sprintf("runtime=%v internal=%d external=%d state=%d", s.runtime != nil, len(s.internalAgents.byName), len(s.externalAgents.byName), s.state)
 	gate := func(name string, g Gate) {
 		gi := g.(*gateImpl)
-		out += fmt.Sprintf(" %s{arrived=%d canceled=%v err=%v}", name, gi.arrived, gi.canceled, gi.err != nil)
+		out += fmt.Sprintf(" %s{count=%d arrived=%d canceled=%v err=%v}", name, gi.count, gi.arrived, gi.canceled, gi.err != nil)
 	}
 	i := initFlow.(*initFlowSynchronizationImpl)
 	gate("init.extRegistered", i.externalAgentsRegisteredGate)
